@@ -13,7 +13,7 @@
 (*   inverse / equality, a seeded sample of the triples and exponent tuples   *)
 (*   for the other laws) and exports them; the laws are evaluated by          *)
 (*   Trace_C05 on the observations.                                           *)
-EXTENDS UnitAlg, IOUtils
+EXTENDS UnitAlgMR, IOUtils
 CONSTANTS Mode,        \* "MR" | "TAB"
           Seed,        \* salt of the seeded sampling
           PairN,       \* comm: partners per first leaf         (0 = all)
@@ -21,99 +21,8 @@ CONSTANTS Mode,        \* "MR" | "TAB"
           PowN,        \* powpow, powadd: (p, q) samples per leaf (0 = all)
           PowMulN,     \* powmul: (v, p) samples per first leaf  (0 = all)
           SimpN,       \* simp: (v, w, p) samples per first leaf (0 = all)
-          RuleN        \* rules: partners per first leaf        (0 = all)
-
-(* ------------------------- the model registry ---------------------------- *)
-DV(m, l, t, th, an, lo) == <<R(m), R(l), R(t), R(th), R(an), RZero, RZero, R(lo)>>
-At(n, lg, dim, off) == [n |-> n, lg |-> R(lg), dim |-> dim, off |-> R(off), neg |-> n = "an"]
-\* scales are 2**lg ; registries 1 and 3 hold all but xb (two objects in the same state), registry 2 holds all
-RS(reg) == IF reg = 3 THEN 1 ELSE reg
-MRAtoms == <<
-  At("la", 0, DV(0,1,0,0,0,0), 0),   At("lb", 10, DV(0,1,0,0,0,0), 0),  At("lc", -3, DV(0,1,0,0,0,0), 0),
-  At("ta", 0, DV(0,0,1,0,0,0), 0),   At("tb", 6, DV(0,0,1,0,0,0), 0),
-  At("ma", 0, DV(1,0,0,0,0,0), 0),   At("mb", -5, DV(1,0,0,0,0,0), 0),
-  At("na", 0, DV(0,0,0,0,0,0), 0),   At("nq", -2, DV(0,0,0,0,0,0), 0),
-  At("fo", 3, DV(1,1,-2,0,0,0), 0),  At("en", 3, DV(1,2,-2,0,0,0), 0),
-  At("ka", 0, DV(0,0,0,1,0,0), 0),   At("oc", 0, DV(0,0,0,1,0,0), -256), At("od", -1, DV(0,0,0,1,0,0), -32),
-  At("ag", 0, DV(0,0,0,0,1,0), 0),   At("ao", -6, DV(0,0,0,0,1,0), 90),
-  At("an", -6, DV(0,0,0,0,1,0), 90), At("np", 0, DV(0,0,0,0,0,1), 0),
-  At("xb", 2, DV(0,1,0,0,0,0), 0) >>
-NA == Len(MRAtoms)
-ALG == [i \in 1..NA |-> MRAtoms[i].lg]
-ADIM == [i \in 1..NA |-> MRAtoms[i].dim]
-AIdx(n) == CHOOSE i \in 1..NA : MRAtoms[i].n = n
-\* exponent vector from a set of <<atom, n, d>>
-EV(S) == [i \in 1..NA |-> IF \E t \in S : t[1] = MRAtoms[i].n THEN (LET tt == CHOOSE t2 \in S : t2[1] = MRAtoms[i].n IN Norm(tt[2], tt[3])) ELSE RZero]
-Lf(s, reg, S) == [s |-> s, reg |-> reg, ex |-> EV(S)]
-Atom(n) == Lf(n, 1, {<<n, 1, 1>>})
-MRLeaves == <<
-  Atom("la"), Atom("lb"), Atom("lc"), Atom("ta"), Atom("tb"), Atom("ma"), Atom("mb"), Atom("na"), Atom("nq"),
-  Atom("fo"), Atom("en"), Atom("ka"), Atom("oc"), Atom("od"), Atom("ag"), Atom("ao"), Atom("an"), Atom("np"),
-  Lf("la/ta", 1, {<<"la", 1, 1>>, <<"ta", -1, 1>>}),
-  Lf("fo*la", 1, {<<"fo", 1, 1>>, <<"la", 1, 1>>}),
-  Lf("ma*la**2/ta**2", 1, {<<"ma", 1, 1>>, <<"la", 2, 1>>, <<"ta", -2, 1>>}),
-  Lf("lb**2/lc", 1, {<<"lb", 2, 1>>, <<"lc", -1, 1>>}),
-  Lf("nq*ma", 1, {<<"nq", 1, 1>>, <<"ma", 1, 1>>}),
-  Lf("lb", 2, {<<"lb", 1, 1>>}),
-  Lf("xb", 2, {<<"xb", 1, 1>>}),
-  Lf("la", 3, {<<"la", 1, 1>>}),
-  Lf("fo*la", 3, {<<"fo", 1, 1>>, <<"la", 1, 1>>}) >>
-NMR == Len(MRLeaves)
-
-Obsify(u) == IF IsUnit(u) THEN [k |-> "unit", ex |-> u.ex, clg |-> u.clg, c1 |-> u.c1, lg |-> u.lg, neg |-> u.neg, dim |-> u.dim,
-                                  off |-> u.off, reg |-> u.reg, rs |-> RS(u.reg), alien |-> FALSE, syncerr |-> 0, lgok |-> TRUE]
-             ELSE u
-SingleAtom(ex) == Cardinality({i \in 1..NA : ~RIsZero(ex[i])}) = 1 /\ \E i \in 1..NA : ex[i] = ROne
-LeafRec(l) ==
-  LET off == IF SingleAtom(l.ex) THEN MRAtoms[CHOOSE i \in 1..NA : l.ex[i] = ROne].off ELSE RZero IN
-  Obsify(MkUnit(l.ex, RZero, Dot(l.ex, ALG), SingleAtom(l.ex) /\ MRAtoms[CHOOSE i \in 1..NA : l.ex[i] = ROne].neg, DotV(l.ex, ADIM), off, l.reg, TRUE, TRUE))
-OneRec(reg) == Obsify(MkUnit([i \in 1..NA |-> RZero], RZero, RZero, FALSE, VZero(ND), RZero, reg, TRUE, TRUE))
-
-\* one step of the model run
-ModelSimplify(u, alg, adim, ain) ==
-  IF ~IsUnit(u) \/ SimplifyRaises(u, ain) \/ SimplifyMayRaise(u, adim) THEN Raise
-  ELSE LET st == CHOOSE s \in SimplifySet(u, alg, adim) : TRUE IN
-       [u EXCEPT !.ex = st.ex, !.clg = st.clg, !.c1 = RIsZero(st.clg)]
-ModelCoeff(u) ==
-  IF ~IsUnit(u) THEN Raise
-  ELSE LET r == AsCoeffUnit(u) IN
-       [k |-> "unit", ex |-> r.ex, clg |-> r.clg, c1 |-> r.c1, lg |-> r.lg, neg |-> r.neg, dim |-> r.dim, off |-> r.off,
-        reg |-> r.reg, rs |-> RS(r.reg), alien |-> FALSE, syncerr |-> 0, lgok |-> TRUE, cf |-> r.cf]
-ModelExec(ins, regs, alg, adim, ain) ==
-  CASE ins.op = "mulrule" ->
-         LET m1 == Obsify(UMul(regs[ins.a], regs[ins.b], TRUE))
-             m == IF IsUnit(m1) /\ SimplifyRaises(m1, ain) THEN Obsify(UMul(regs[ins.b], regs[ins.a], TRUE)) ELSE m1 IN
-         ModelCoeff(ModelSimplify(m, alg, adim, ain))
-    [] ins.op = "divrule" -> ModelCoeff(ModelSimplify(Obsify(UDiv(regs[ins.a], regs[ins.b], TRUE)), alg, adim, ain))
-    [] ins.op = "mul" -> Obsify(UMul(regs[ins.a], regs[ins.b], TRUE))
-    [] ins.op = "div" -> Obsify(UDiv(regs[ins.a], regs[ins.b], TRUE))
-    [] ins.op = "pow" -> Obsify(UPow(regs[ins.a], ins.e, TRUE))
-    [] ins.op = "simplify" -> ModelSimplify(regs[ins.a], alg, adim, ain)
-    [] ins.op = "coeff" -> ModelCoeff(regs[ins.a])
-RECURSIVE RunFrom(_, _, _, _, _, _)
-RunFrom(prog, regs, alg, adim, ain, k) ==
-  IF k > Len(prog) THEN regs ELSE RunFrom(prog, Append(regs, ModelExec(prog[k], regs, alg, adim, ain)), alg, adim, ain, k + 1)
-ModelPair(regs, pr) ==
-  LET a == regs[pr.i] b == regs[pr.j] both == IsUnit(a) /\ IsUnit(b) IN
-  [i |-> pr.i, j |-> pr.j, kind |-> pr.kind, eq |-> UEq(a, b), eqr |-> UEq(b, a),
-   heq |-> both /\ UHashEq(a, b), same |-> both /\ SameExpr(a, b),
-   serr |-> IF both /\ a.lg = b.lg /\ a.neg = b.neg THEN 0 ELSE FarTol]
-\* the atom universe of a case = the atoms of its leaves (keeps the vectors short)
-ModelRun(c) ==
-  LET prog == Prog(c.law, c.p, c.q)
-      lf == [r \in 1..3 |-> MRLeaves[c.lv[r]]]
-      used == {a \in 1..NA : \E r \in 1..3 : ~RIsZero(lf[r].ex[a])}
-      au == SelectSeq([a \in 1..NA |-> a], LAMBDA a : a \in used)
-      cut(u) == [u EXCEPT !.ex = [x \in 1..Len(au) |-> u.ex[au[x]]]]
-      alg == [x \in 1..Len(au) |-> ALG[au[x]]]
-      adim == [x \in 1..Len(au) |-> ADIM[au[x]]]
-      regs0 == <<cut(LeafRec(lf[1])), cut(LeafRec(lf[2])), cut(LeafRec(lf[3])), cut(OneRec(lf[1].reg))>>
-      ain == [x \in 1..Len(au) |-> IF MRAtoms[au[x]].n = "xb" THEN <<2>> ELSE <<1, 2, 3>>]
-      regs == RunFrom(prog, regs0, alg, adim, ain, 1)
-      prs == Pairs(c.law) IN
-  [law |-> c.law, exact |-> TRUE, alg |-> alg, adim |-> adim, regs |-> regs, prog |-> prog,
-   pairs |-> [x \in DOMAIN prs |-> ModelPair(regs, prs[x])], herr |-> [x \in DOMAIN prog |-> 0], hcond |-> [x \in DOMAIN prog |-> 0], ain |-> ain]
-ModelFails(c) == Fails(ModelRun(c))
+          RuleN,       \* rules: partners per first leaf        (0 = all)
+          HistN        \* state: registry histories sampled per first leaf (MR mode only)
 
 (* ------------------------------ exponents -------------------------------- *)
 PSeq == <<Ex(2, 1, "int"), Ex(3, 1, "int"), Ex(-1, 1, "int"), Ex(-2, 1, "int"), Ex(-3, 1, "int"),
@@ -134,8 +43,22 @@ Sample(i, t, salt, n) == ((i * 7919 + t * (1009 + 37 * salt) + (t * t) * salt + 
 \* in TAB mode equality probes are interesting between rows of the same dimension class
 SameClass(i, j) == IF Mode = "TAB" THEN Tab[i].dc = Tab[j].dc ELSE TRUE
 
+(* ---------------------- registry histories (law "state") ------------------ *)
+\* edits of registry 4: re-scaling, re-definition over the row, removal + re-definition (also with another dimension),
+\* and edits that lead back to the original row (the same registry STATE is reached again)
+EditSeq == <<Ed("modify", "la", 2, "la"), Ed("modify", "la", 0, "la"), Ed("modify", "lb", 3, "lb"), Ed("modify", "lb", 10, "lb"),
+             Ed("modify", "ta", -1, "ta"), Ed("modify", "ta", 0, "ta"), Ed("modify", "ma", 5, "ma"), Ed("modify", "nq", 0, "nq"),
+             Ed("modify", "fo", 1, "fo"), Ed("modify", "lc", 0, "lc"), Ed("modify", "tb", 6, "tb"),
+             Ed("add", "la", 4, "la"), Ed("add", "la", 1, "ta"), Ed("add", "nq", -2, "nq"), Ed("add", "ma", 0, "ma"),
+             Ed("readd", "ta", 2, "la"), Ed("readd", "ma", -2, "ma"), Ed("readd", "lb", 10, "lb"), Ed("readd", "la", 0, "la"),
+             Ed("readd", "mb", 3, "ta")>>
+HLeafSeq == SelectSeq([x \in 1..NMR |-> x], LAMBDA x : MRLeaves[x].reg = 1)
+Touches(e, lv) == \E r \in 1..3 : ~RIsZero(MRLeaves[lv[r]].ex[AIdx(e.sym)])
+\* a history: one or two edits; the first one touches a symbol of the leaves
+HistCase(i, j, k, p, es) == [seed |-> FALSE, law |-> "state", lv |-> <<i, j, k>>, p |-> p, q |-> E1, edits |-> es]
+
 VARIABLE c
-Case(law, i, j, k, p, q) == [seed |-> FALSE, law |-> law, lv |-> <<i, j, k>>, p |-> p, q |-> q]
+Case(law, i, j, k, p, q) == [seed |-> FALSE, law |-> law, lv |-> <<i, j, k>>, p |-> p, q |-> q, edits |-> <<>>]
 \* initial states are seeds (law, first leaf): TLC's workers expand different seeds in parallel
 Init == c \in {[seed |-> TRUE, law |-> l, i |-> i] : l \in Laws, i \in Leaf}
 Next ==
@@ -146,6 +69,18 @@ Next ==
             ELSE \E t \in 1..PairN : c' = Case("comm", i, Sample(i, t, 11, NLeaves), i, E1, E1)
        [] c.law = "ident" -> c' = Case("ident", i, i, i, E1, E1)
        [] c.law = "eqsem" -> \E j \in Leaf : SameClass(i, j) /\ c' = Case("eqsem", i, j, i, E1, E1)
+       [] c.law = "state" ->
+            \* first leaf i (of registry 1's leaves), partner sampled, divisor either sampled or the next leaf (same
+            \* dimension for la/lb/lc, ta/tb, ma/mb: a pair that cancels), exponent and one or two edits sampled
+            /\ Mode = "MR" /\ MRLeaves[i].reg = 1
+            /\ \E t \in 1..HistN, near \in BOOLEAN, two \in BOOLEAN :
+                 LET j == HLeafSeq[Sample(i, t, 91, Len(HLeafSeq))]
+                     k == IF near THEN (IF i < Len(HLeafSeq) THEN i + 1 ELSE 1) ELSE HLeafSeq[Sample(i, t, 92, Len(HLeafSeq))]
+                     p == SimpPSeq[Sample(i, t, 93, Len(SimpPSeq))]
+                     e1 == EditSeq[Sample(i, t, 94, Len(EditSeq))]
+                     e2 == EditSeq[Sample(i, t, 95, Len(EditSeq))] IN
+                 /\ Touches(e1, <<i, j, k>>)
+                 /\ c' = HistCase(i, j, k, p, IF two THEN <<e1, e2>> ELSE <<e1>>)
        [] c.law = "rules" ->
             IF RuleN = 0 THEN \E j \in Leaf : c' = Case("rules", i, j, i, E1, E1)
             ELSE \E t \in 1..RuleN : c' = Case("rules", i, Sample(i, t, 81, NLeaves), i, E1, E1)
@@ -171,7 +106,7 @@ ASSUME Mode = "MR" => PrintT(ToJson([tag |-> "MR", atoms |-> MRAtoms, leaves |->
 \* export (one line per case); in MR mode with the model-level verdict
 Export ==
   ~c.seed =>
-    PrintT(ToJson([tag |-> "CASE", law |-> c.law, lv |-> c.lv, p |-> c.p, q |-> c.q,
+    PrintT(ToJson([tag |-> "CASE", law |-> c.law, lv |-> c.lv, p |-> c.p, q |-> c.q, edits |-> c.edits,
                    prog |-> ExportProg(Prog(c.law, c.p, c.q)), pairs |-> Pairs(c.law),
                    modelfails |-> IF Mode = "MR" THEN ModelFails(c) ELSE {}]))
 \* model checking proper: the transcribed operators satisfy the C05 predicates on every case of the instance
